@@ -176,13 +176,12 @@ func runLeak50(in leak50Input, sec *vh.Section) {
 		}
 		if control {
 			// 3c. the old worker sees EOF after the rotation was noticed and releases the file
-			t0 := time.Now()
 			if !waitUntil(6*time.Second, func() bool { return fdsOn(fn+".1") == 0 }) {
 				fail("worker-not-stopped-after-rotation", "", fmt.Sprintf("6 s after the new file was collected: %d descriptors on app.log.1, %d worker goroutines in readLine (process-wide)", fdsOn(fn+".1"), workersInReadLine()),
 					"the old worker stops at EOF after the rotation and releases the file",
 					"control schedule (the rotated file ends with a newline): the old worker still holds the rotated file")
 			} else {
-				res.Dist(sec, fmt.Sprintf("control rename: descriptor on app.log.1 released within %.0f s", time.Since(t0).Seconds()+1))
+				res.Dist(sec, "control rename: descriptor on app.log.1 released within 6 s")
 			}
 			return
 		}
